@@ -50,6 +50,7 @@ def build_msg(m, devs, futs):
     args = list(m.get("args", []))
     kwargs = dict(m.get("kwargs", {}))
     run = m.get("run") or None
+    run = RUN_KEY_MAP.get(run, run)
     cmd = m["cmd"]
     if cmd == "wait_for":
         args = [[futs[a] for a in args]]
@@ -60,6 +61,7 @@ def build_msg(m, devs, futs):
     return Msg(cmd, obj, *args, run=run, **kwargs)
 
 
+RUN_KEY_MAP = {}    # program run key -> python run key of the scenario being run (option run_key_wrapper)
 SUSPENDERS = {}     # name -> suspender object of the scenario being run (Msg('install_suspender', None, <object>))
 
 
@@ -133,6 +135,21 @@ class Scenario:
                     descs["_raised"] = True          # fails once, on the first document of that kind (e.g. "doc:start")
                     raise rec_mod.PlanErr(f"consumer cannot handle this {name} document")
             RE.subscribe(consumer)
+        if opts.get("consumer_updates"):
+            # a document consumer that, on one kind of document, makes a monitored signal update (e.g. a callback closing a
+            # shutter when it sees the RunStop): ["stop", "mon1"]
+            on_name, sig_name = opts["consumer_updates"]
+
+            def updating_consumer(name, doc):
+                if name == on_name:
+                    rec.ev("req", "update", sig_name)
+                    out = "ok"
+                    try:
+                        self.devs[sig_name].put(1)
+                    except BaseException as e:  # noqa
+                        out = "exc:" + exc_kind(e)
+                    rec.ev("reqret", "update", out)
+            RE.subscribe(updating_consumer)
         loop.is_run_step = lambda h: RE._task is not None and getattr(h._callback, "__self__", None) is RE._task
         loop.active = lambda: RE._task is not None and not RE._task.done()
         started = []
@@ -179,7 +196,9 @@ class Scenario:
 
         # real suspenders on fake signals
         import bluesky.suspenders as bsus
-        sigs = {n: D.Sig(n, rec, value=v) for n, v in sc.get("signals", {}).items()}
+        # vmaps: abstract signal value (0 released / 1 tripped / 2 dead band) -> the real value of that signal
+        vmaps = {n: {int(k): v for k, v in m.items()} for n, m in sc.get("vmaps", {}).items()}
+        sigs = {n: D.Sig(n, rec, value=vmaps.get(n, {}).get(v, v)) for n, v in sc.get("signals", {}).items()}
         suspenders = {}
         for n, d in sc.get("suspenders", {}).items():
             cls = getattr(bsus, d.get("type", "SuspendBoolHigh"))
@@ -201,7 +220,7 @@ class Scenario:
                 elif op == "sus_remove":
                     RE.remove_suspender(suspenders[name])
                 elif op == "sig_put":
-                    sigs[name].put(value)
+                    sigs[name].put(vmaps.get(name, {}).get(value, value))
             except BaseException as e:  # noqa
                 out = "exc:" + exc_kind(e)
             return out
@@ -287,12 +306,22 @@ class Scenario:
         loop.after_inject = landed
 
         plan_spec = sc["plan"]
+        RUN_KEY_MAP.clear()
+        rkw = opts.get("run_key_wrapper")
+        if rkw:
+            # the plan runs below set_run_key_wrapper(plan, "k1"): its "k1" messages carry no key (the wrapper supplies it), its
+            # "k2" messages carry the FALSY key 0 (sub-runs numbered 0, 1, ...), which the wrapper must leave alone
+            RUN_KEY_MAP.update({"k1": None, "k2": 0})
+            rec.key_names = {0: "k2"}
         if "prog" in plan_spec:
             plan = make_program_plan(plan_spec["prog"], devs, futs)
         else:
             plan = builtin_plan(plan_spec, devs)
         drop = set(opts.get("drop", ()))
-        plan = rec.wrap_plan(plan, log_cmd=bool(drop))
+        plan = rec.wrap_plan(plan, log_cmd=bool(drop) or bool(rkw), log_run=({None: 2, 0: 3} if rkw else None))
+        if rkw:
+            from bluesky.preprocessors import set_run_key_wrapper
+            plan = set_run_key_wrapper(plan, "k1")
         if drop:
             # a preprocessor that drops messages before the engine sees them (as stub_wrapper does): the plan must be sent None there
             from bluesky.preprocessors import msg_mutator
